@@ -154,8 +154,8 @@ theorem de_cons_all : ∀ t : Ty, ∀ st, Cons (de Rd.slice st t) (fun _ => minW
     simp only [de, minWire]
     intro bs v rest h; dsimp only at h; split at h
     · simp at h
-    · have hent : Cons (fun s => (de Rd.slice st a s).bind fun x =>
-          (de Rd.slice st b x.2).map fun y => (Val.list [x.1, y.1], y.2)) (fun _ => 0) := by
+    · have hent : Cons (deEntry (de Rd.slice st a) (de Rd.slice st b)) (fun _ => 0) := by
+        unfold deEntry
         apply Cons.bind (Cons.weaken (iha st) (w' := fun _ => 0) (fun _ => Nat.zero_le _))
           (w₂ := fun _ _ => 0) _ _ (fun _ _ => by omega)
         intro x; dsimp only
